@@ -432,6 +432,16 @@ def run_pdhg(case):
                             mech="pdhg-diverged")
     checks = k
     obs = {"updates": k}
+    # (array-valued step sizes are the caller's: acceleration rescales the solver's own steps,
+    # not the arrays that were passed in)
+    for name, arg, ref in (("tau", tau_arg, tau), ("sigma", sigma_arg, sigma)):
+        if np.ndim(arg):
+            checks += 1
+            if not np.array_equal(arg, ref):
+                return violated(sig, "the %s array passed to PrimalDualHybridGradient was "
+                                "modified by the run (gamma=%s): max change %.3g" % (
+                                    name, case["gamma"], float(np.max(np.abs(arg - ref)))), wit,
+                                mech="pdhg-caller-steps-modified")
     if single:
         # (the monotonicity claims are decided in double precision; here: in place, finite,
         # and not further from the saddle point than at the start)
